@@ -52,6 +52,10 @@ CHECKS = {
             "Held on all generated (reference, bootstrap collection) cases; sampled.",
             "branches with light side >= 2; single-threaded (threads are C11). " + BASE_NOTE,
             "DESIGN.md §5 C10"),
+    "C11": ("Go race detector (-race worker binary, GORACE log parsed and de-duplicated by entry-point pair) + schedule recorder on the verifhook points with delay policies + offline checkers of the event log and per-id results (equality with the 1-thread run, exactly-once) + goroutine-state deadlock detector",
+            "Held on every sampled schedule: 7 entry points x 3 workloads x 4 delay policies x thread counts {2,3,4,8,16,#trees+5} vs 1 thread, and Err item / duplicate-name / taxon-mismatched tree at first/middle/last position; the evidence lists distinct interleavings, assignment vectors and overlapping worker intervals actually observed.",
+            "schedules sampled (OS scheduler x hook delays), not enumerated; hangs decided on goroutine states, wall-clock watchdog alone is inconclusive; only races with a gotree frame count. " + BASE_NOTE,
+            "DESIGN.md §5 C11"),
     "C12": ("reference-model monitor: steps / node state sets from ParsimonyAcr / ParsimonyAsr (library and gotree acr/asr) vs an independent Sankoff dynamic programme on the model; re-rooting invariance; exact optimal set for DOWNPASS; own cost of unambiguous outputs",
             "Held on all generated (tree, state assignment, algorithm) cases incl. polytomies and engineered ties; sampled.",
             "<= 40/200 tips, <= 6 states, no random resolution; nucleotide ASR. " + BASE_NOTE,
